@@ -1,0 +1,26 @@
+//go:build verif
+
+package safeops
+
+// Machine-checked contracts (comment-only; compiled only with -tags verif).
+//
+// The shutdown lock is a counter of requests in flight (properties C26, C17): every handler locks
+// once and unlocks once (proved per handler in the gateway contracts); here: lock and unlock are
+// exact inverses on the counter, the system counts as locked exactly while the counter is
+// positive, so one request finishing (or being rejected) never releases the lock another request
+// still holds, and a shutdown waits for all of them.
+//@ func (*safeops).LockSystem(s)
+//@   property C26 C17
+//@   nopanic
+//@   modifies s.isLocked
+//@   ensures[counts_one_more_request] s.isLocked == wrap32(old(s.isLocked) + 1)
+//@ func (*safeops).UnlockSystem(s)
+//@   property C26 C17
+//@   nopanic
+//@   modifies s.isLocked
+//@   ensures[counts_one_request_less] s.isLocked == wrap32(old(s.isLocked) - 1)
+//@ func (*safeops).SystemLocked(s) (r)
+//@   property C26 C17
+//@   nopanic
+//@   ensures[locked_while_requests_in_flight] r <==> s.isLocked > 0
+//@ pure wrap32(x) = int32(x)
